@@ -170,6 +170,14 @@ def gen(ctx):
     add("answer-then-close", r2.randrange(1, 3000), r2.randrange(1, 256 * KIB), ["a:blackhole"], srvclose=True)
     add("answer-then-close", r2.randrange(1, 3000), r2.choice([1, 1400, 100 * KIB, 256 * KIB]), ["a:hang"], srvclose=True)
     add("answer-then-close-no-fault", r2.randrange(1, 3000), r2.randrange(1, 256 * KIB), ["a:none"], srvclose=True)
+    # ---- bulk download: several MiB downstream at full speed (the bridge side writes without waiting for anything, KCP and
+    # smux windows stay full), a light upstream beside it, and one proxy replacement in the middle, after which the server
+    # flushes the retained backlog to the new carrier at once. The class: more than one downstream packet waiting between the
+    # client's carrier reader and its KCP loop. (The rig only makes that likely, not certain: per packet the carrier reader
+    # costs more than the KCP loop - see seeded-selftest/C01.md; the queue itself is tied deterministically in C17.)
+    M4 = 4 * 1024 * KIB
+    add("bulk-download", r2.choice([64, 256]) * KIB, M4, ["c0:stop=%d" % r2.randrange(M4 // 4, M4 // 2)])
+    add("bulk-download", 256 * KIB, M4 + r2.randrange(0, 2 * 1024 * KIB), ["c0:%s=%d" % (r2.choice(["cutd", "stop"]), r2.randrange(M4 // 4, M4 // 2))])
     if ctx.tier != "thorough":
         S.sort(key=lambda x: 0 if x[1] in SLOW else 1)
         return S
